@@ -17,6 +17,8 @@
 (*                       state is SUCCEEDED                                *)
 (*      FailClosed       no signature for a request / position at which a  *)
 (*                       dependency failed (Fault events)                  *)
+(*  C03 DurableCovered   every export (also after kill + restart) covers   *)
+(*                       every duty for which a signature was produced     *)
 (*  C09 AdvancingSigned  a well-formed, authorised duty above everything   *)
 (*                       signed before is signed (sequential, fault-free   *)
 (*                       runs only: the Invoke event says so)              *)
@@ -36,9 +38,10 @@ VARIABLES l,       \* next line of the trace
           hiS, hiT, hiP, \* key -> highest source / target / slot signed (or present in the database at start)
           snap,    \* r -> [s, t, p] : the three functions above as they were when r was invoked
           req,     \* r -> the Invoke event
+          produced,\* duties for which a signature has been produced (signRoot returned), released or not
           fpos,    \* faulted positions <<r, i>> (i = 0: the whole request) as reported by Fault events
           bad      \* set of violation descriptions found at Respond / Release
-vars == <<l, relA, relP, doneP, floor, hiS, hiT, hiP, snap, req, fpos, bad>>
+vars == <<l, relA, relP, doneP, floor, hiS, hiT, hiP, snap, req, produced, fpos, bad>>
 
 Ev == Trace[l]
 Is(name) == l <= Len(Trace) /\ Ev.ev = name /\ l' = l + 1
@@ -47,12 +50,12 @@ Get(f, k) == IF k \in DOMAIN f THEN f[k] ELSE -1
 Put(f, k, v) == [x \in (DOMAIN f) \cup {k} |-> IF x = k THEN v ELSE f[x]]
 
 Init == /\ l = 1 /\ relA = {} /\ relP = {} /\ doneP = {} /\ floor = <<>>
-        /\ hiS = <<>> /\ hiT = <<>> /\ hiP = <<>> /\ snap = <<>> /\ req = <<>> /\ fpos = {} /\ bad = {}
+        /\ hiS = <<>> /\ hiT = <<>> /\ hiP = <<>> /\ snap = <<>> /\ req = <<>> /\ produced = {} /\ fpos = {} /\ bad = {}
         /\ TLCSet(1, 1)
 
 Begin == /\ Is("Begin")
          /\ relA' = {} /\ relP' = {} /\ doneP' = {} /\ floor' = <<>>
-         /\ hiS' = <<>> /\ hiT' = <<>> /\ hiP' = <<>> /\ snap' = <<>> /\ req' = <<>> /\ fpos' = {}
+         /\ hiS' = <<>> /\ hiT' = <<>> /\ hiP' = <<>> /\ snap' = <<>> /\ req' = <<>> /\ fpos' = {} /\ produced' = {}
          /\ UNCHANGED bad
 
 \* Floor: what the database already held for a key when the run started (prior records).
@@ -60,13 +63,13 @@ FloorEv == /\ Is("Floor")
            /\ hiS' = Put(hiS, Ev.k, Max(Get(hiS, Ev.k), Ev.s))
            /\ hiT' = Put(hiT, Ev.k, Max(Get(hiT, Ev.k), Ev.t))
            /\ hiP' = Put(hiP, Ev.k, Max(Get(hiP, Ev.k), Ev.slot))
-           /\ UNCHANGED <<relA, relP, doneP, floor, snap, req, fpos, bad>>
+           /\ UNCHANGED <<relA, relP, doneP, floor, snap, req, produced, fpos, bad>>
 
 Invoke == /\ Is("Invoke")
           /\ floor' = Put(floor, Ev.r, doneP)
           /\ snap' = Put(snap, Ev.r, [s |-> hiS, t |-> hiT, p |-> hiP])
           /\ req' = Put(req, Ev.r, Ev)
-          /\ UNCHANGED <<relA, relP, doneP, hiS, hiT, hiP, fpos, bad>>
+          /\ UNCHANGED <<relA, relP, doneP, hiS, hiT, hiP, produced, fpos, bad>>
 
 RouteOK(e) ==
     /\ (e.kind = "att") => e.dom = "att"
@@ -88,7 +91,7 @@ Release == /\ Is("Release")
                  /\ UNCHANGED <<relA, relP, hiS, hiT, hiP>>
            /\ bad' = bad \cup (IF RouteOK(Ev) THEN {} ELSE {<<"route", l>>})
                          \cup (IF <<Ev.r, 0>> \in fpos \/ <<Ev.r, Ev.i + 1>> \in fpos THEN {<<"failclosed", l>>} ELSE {})
-           /\ UNCHANGED <<doneP, floor, snap, req, fpos>>
+           /\ UNCHANGED <<doneP, floor, snap, req, produced, fpos>>
 
 \* C09: entry i of request q (invoked with snapshot sn) had to be signed
 AttAdvancing(e, sn) == /\ e.dom = "att" /\ e.s <= MaxI /\ e.t <= MaxI
@@ -110,17 +113,31 @@ Respond ==
                     ELSE {}
            c06 == {<<"sigstate", l, i>> : i \in {j \in 1 .. n : (Ev.res[j] = "SUCCEEDED") # Ev.sig[j]}}
        IN bad' = bad \cup c09 \cup c06
-    /\ UNCHANGED <<relA, relP, floor, hiS, hiT, hiP, snap, req, fpos>>
+    /\ UNCHANGED <<relA, relP, floor, hiS, hiT, hiP, snap, req, produced, fpos>>
 
 \* C06: a dependency failed (or gave no definite answer) while request r / its entry i was processed
 FaultEv == /\ Is("Fault")
            /\ fpos' = fpos \cup {<<Ev.r, Ev.i>>}
-           /\ UNCHANGED <<relA, relP, doneP, floor, hiS, hiT, hiP, snap, req, bad>>
+           /\ UNCHANGED <<relA, relP, doneP, floor, hiS, hiT, hiP, snap, req, produced, bad>>
 
-Other == /\ l <= Len(Trace) /\ Ev.ev \notin {"Begin", "Floor", "Invoke", "Release", "Respond", "Fault"}
-         /\ l' = l + 1 /\ UNCHANGED <<relA, relP, doneP, floor, hiS, hiT, hiP, snap, req, fpos, bad>>
+\* C03: a signature has been produced for a duty (the signing call returned), whether or not it was
+\* sent; from then on every export of the database - in particular the one taken after a kill and
+\* restart - must cover the duty.
+Produce == /\ Is("Produce")
+           /\ produced' = produced \cup {[k |-> Ev.k, kind |-> Ev.kind, s |-> Ev.s, t |-> Ev.t, slot |-> Ev.slot]}
+           /\ UNCHANGED <<relA, relP, doneP, floor, hiS, hiT, hiP, snap, req, fpos, bad>>
+CoveredBy(db, d) ==
+    /\ d.k \in DOMAIN db
+    /\ IF d.kind = "att" THEN db[d.k].t >= d.t /\ db[d.k].s >= d.s
+       ELSE IF d.kind = "prop" THEN db[d.k].ps >= d.slot ELSE TRUE
+ExportEv == /\ Is("Export")
+            /\ bad' = bad \cup {<<"durable", l, d.k>> : d \in {x \in produced : x.kind \in {"att", "prop"} /\ ~CoveredBy(Ev.db, x)}}
+            /\ UNCHANGED <<relA, relP, doneP, floor, hiS, hiT, hiP, snap, req, produced, fpos>>
 
-Next == Begin \/ FloorEv \/ Invoke \/ Release \/ Respond \/ FaultEv \/ Other
+Other == /\ l <= Len(Trace) /\ Ev.ev \notin {"Begin", "Floor", "Invoke", "Release", "Respond", "Fault", "Produce", "Export"}
+         /\ l' = l + 1 /\ UNCHANGED <<relA, relP, doneP, floor, hiS, hiT, hiP, snap, req, produced, fpos, bad>>
+
+Next == Begin \/ FloorEv \/ Invoke \/ Release \/ Respond \/ FaultEv \/ Produce \/ ExportEv \/ Other
 Spec == Init /\ [][Next]_vars
 
 HighWater == TLCSet(1, IF l > TLCGet(1) THEN l ELSE TLCGet(1))
@@ -133,5 +150,6 @@ SlotsIncrease == \A p \in relP : p.r \in DOMAIN floor =>
 Routed == \A b \in bad : b[1] # "route"
 SigIffSucceeded == \A b \in bad : b[1] # "sigstate"
 FailClosed == \A b \in bad : b[1] # "failclosed"
+DurableCovered == \A b \in bad : b[1] # "durable"
 AdvancingSigned == \A b \in bad : b[1] # "advancing"
 =============================================================================
